@@ -130,6 +130,36 @@ class C13:
                     comps = list(bi[1])[::-1] if rev else list(bi[1])
                     out += [subst(t[2], {("elem", lid1): c_, outer_el: bi}) for c_ in comps]
                 return out
+            if t[0] == "call" and t[1] in (("ext", "numpy.concatenate"), ("ext", "numpy.hstack")) and len(t[2]) == 1 and not t[3] \
+                    and t[2][0][0] in ("list", "tuple") and t[2][0][1]:
+                # the mirrored edge list: blocks are columns of ONE (k, 2) integer array of per-pair tuples; position p of every
+                # block belongs to pair p, so per pair the list receives one component per block, in block order
+                items = []
+                base = None
+                for blk in t[2][0][1]:
+                    if not (blk[0] == "sub" and blk[2][0] == "tuple" and len(blk[2][1]) == 2 and blk[2][1][0] == ("slice", NONE, NONE, NONE)
+                            and blk[2][1][1][0] == "const" and blk[2][1][1][1] in (0, 1)):
+                        return None
+                    E = blk[1]
+                    if E[0] == "call" and E[1][0] == "attr" and E[1][2] == "reshape" and E[2] == (("const", -1), ("const", 2)) and not E[3]:
+                        E = E[1][1]
+                    if not (E[0] == "call" and E[1] in (("ext", "numpy.array"), ("ext", "numpy.asarray")) and len(E[2]) == 1):
+                        return None
+                    dt = callkw(E).get("dtype")
+                    if dt is not None and dt not in (("ext", "numpy.intp"), ("ext", "numpy.int64"), ("ext", "numpy.int32"), ("builtin", "int"), ("const", "int64"), ("const", "intp"), ("const", "int")):
+                        return None
+                    if base is not None and E != base:
+                        return None
+                    base = E
+                    inner = perpair(E[2][0], depth + 1)
+                    if not isinstance(inner, list):
+                        return inner if isinstance(inner, tuple) else None
+                    if len(inner) != 1 or inner[0][0] != "tuple" or len(inner[0][1]) != 2:
+                        return None
+                    items.append(inner[0][1][blk[2][1][1][1]])
+                return ("blocks", items, base)
+            if t[0] == "call" and t[1] == ("ext", "numpy.ones") and t[2] and t[2][0][0] == "call" and t[2][0][1] == ("builtin", "len") and len(t[2][0][2]) == 1:
+                return ("uniform", ("const", 1), t[2][0][2][0])
             if t[0] == "bin" and t[1] == "*":
                 for lst, n in ((t[2], t[3]), (t[3], t[2])):
                     if lst[0] == "list" and len(lst[1]) == 1 and n[0] == "call" and n[1] == ("builtin", "len") and len(n[2]) == 1:
@@ -152,6 +182,9 @@ class C13:
                 ctx.bad("R13.1", self.file, "_compute_similarity_matrix", f"{show(c.term)[:50] if c else 'comprehension filter'}",
                         "an adjacency entry is recorded under a condition other than `comparison_fn(a, b)` being true", c.lineno if c else s.node.lineno)
                 return
+        if isinstance(la, tuple) and la and la[0] == "blocks" and isinstance(lb, tuple) and lb and lb[0] == "blocks" and la[2] == lb[2] \
+                and len(la[1]) == len(lb[1]):
+            la, lb = la[1], lb[1]  # both index vectors are cut from the same edge array, block by block: entries align
         if not isinstance(la, list) or not isinstance(lb, list) or lv is None:
             ctx.undec("R13.1", site, "cannot tell what one similar pair contributes to the index / value lists")
             return
@@ -209,6 +242,9 @@ class C13:
         if written_out:
             loops = [l for l in loops if not (l.iter[0] == "call" and l.iter[1] == ("ext", "itertools.combinations"))]
         z = ("call", ("builtin", "zip"), (ev, labels), ())
+        # the distributing loop is the one that reads the events / the labels; a later loop over the collected per-label lists
+        # (second stage) is looked at where the result is decided
+        loops = [l for l in loops if any(x in (ev, labels) for x in walk(l.iter))]
 
         def unwrap_labels(it):
             """zip(events, labels) with the label array possibly converted to a list / tuple first"""
@@ -231,7 +267,12 @@ class C13:
         L = loops[0]
         e = ("elem", L.id)
         se, lab = ("sub", e, ("const", 0)), ("sub", e, ("const", 1))
+        # the label read as a plain int (int(label) / label.item()) names the same component: equal labels stay equal, distinct stay distinct
+        plain = {("call", ("builtin", "int"), (lab,), ()): lab, ("call", ("attr", lab, "item"), (), ()): lab}
         apps = [c for c in s.calls if c.term[1][0] == "attr" and c.term[1][2] == "append" and L.id in c.loops]
+        if any(k_ in set(walk(c.term)) for c in apps for k_ in plain):
+            import dataclasses
+            apps = [dataclasses.replace(c, term=subst(c.term, plain)) for c in apps]
         dd = None
         okapp = False
         if len(apps) == 1 and apps[0].term[2] == (se,) and all(c[0] == "inloop" for c in conjuncts(apps[0].live)):
